@@ -212,7 +212,7 @@ class Report:
         """st: build_and_audit status.  search: callable run when the proof or the correspondence is broken,
         returns a failing-input payload or None."""
         violations = []
-        for what, payload in self.prop_fail:
+        for what, payload in self.prop_fail[:3]:
             violations.append((self.write_replay("failing-input", what, payload), what, False))
         broken = list(st["broken"]) + ["correspondence: " + w for w, _ in self.corr_fail[:5]]
         if not violations and broken:
